@@ -261,8 +261,8 @@ func runAuth(r *prng.R, s *out.Sink, tier string) {
 		signer := me.sign
 		what := "valid"
 		resign := true
-		var wire []byte // when set, sent instead of the encoding of h
-		signedDomain := ""       // when what == "signed-for-its-other-registered-domain": the domain the signature covers
+		var wire []byte    // when set, sent instead of the encoding of h
+		signedDomain := "" // when what == "signed-for-its-other-registered-domain": the domain the signature covers
 		mut := r.Intn(32)
 		if c < 32 {
 			mut = c
